@@ -17,12 +17,23 @@ def _parse_lines(out):
     return res
 
 
+MAX_CRASHES = 40
+
+
 def run_tool(binary, sub, cases, timeout=600, extra_args=()):
-    """cases: list of (id, kind, text). returns dict id -> observable ('CRASH ...' when the tool died on it)"""
+    """cases: list of (id, kind, text). returns dict id -> observable ('CRASH ...' when the tool died on it).
+    A tool that keeps dying (a stack overflow on every input of some shape takes seconds each) is restarted at most
+    MAX_CRASHES times; the cases left are reported as 'NOT-RUN ...' so that a check stays within minutes - the crashes
+    seen so far are what it reports."""
     os.makedirs(os.path.join(C.CACHE, "tmp"), exist_ok=True)
     res = {}
     todo = list(cases)
+    crashes = 0
     while todo:
+        if crashes >= MAX_CRASHES:
+            for c in todo:
+                res[c[0]] = "NOT-RUN the tool died %d times before reaching this case" % crashes
+            break
         fd, path = tempfile.mkstemp(dir=os.path.join(C.CACHE, "tmp"), suffix=".cases")
         os.close(fd)
         with open(path, "w") as f:
@@ -41,6 +52,7 @@ def run_tool(binary, sub, cases, timeout=600, extra_args=()):
         bad = rest[0]
         tail = (err or "")[-400:].replace("\n", " | ")
         res[bad[0]] = "CRASH rc=%d %s" % (rc, "TIMEOUT" if rc == 124 else tail)
+        crashes += 1
         todo = rest[1:]
     return res
 
@@ -53,6 +65,8 @@ def correspond(b, sub, cases, project=lambda s: s, timeout=600, model_sub=None):
     mism = []
     for i, k, t in cases:
         a, m = impl.get(i, "MISSING"), model.get(i, "MISSING")
+        if a.startswith("NOT-RUN") or m.startswith("NOT-RUN"):
+            continue
         if project(a) != project(m):
             mism.append((i, k, t, a, m))
     return impl, model, mism
